@@ -26,12 +26,13 @@ type Roles struct {
 	ServiceT *types.Named
 	CallT    *types.Named
 
-	Serving   []*ssa.Function // contain a call to net.Listener.Accept
-	ConnEntry []*ssa.Function // started by `go` from a serving function (owns the connection's accounting)
-	ConnLoop  []*ssa.Function // the function (the go target or one of its callees) that holds the frame-read loop
-	Handle    *ssa.Function   // Service.HandleMessage (exported API)
-	WFuncs    []*ssa.Function // functions in package varlink that Write on a Call's connection
-	WSites    []CallSite
+	Serving     []*ssa.Function // accept connections; inlined views (inline.go) of ServingOrig
+	ServingOrig []*ssa.Function // the built functions behind Serving
+	ConnEntry   []*ssa.Function // started by `go` from a serving function (owns the connection's accounting)
+	ConnLoop    []*ssa.Function // the function (the go target or one of its callees) that holds the frame-read loop
+	Handle      *ssa.Function   // Service.HandleMessage (exported API)
+	WFuncs      []*ssa.Function // functions in package varlink that Write on a Call's connection
+	WSites      []CallSite
 }
 
 func isNamed(t types.Type, pkg, name string) bool {
@@ -96,10 +97,37 @@ func DiscoverRoles(p *Prog) *Roles {
 		if fnPkgPath(f) != pkgVarlink {
 			continue
 		}
+	}
+	// serving functions: the functions of package varlink whose body - with the repository's helpers inlined - accepts
+	// connections, and that are not themselves a helper of another such function. They are analysed in their inlined
+	// view, so that it does not matter whether the accept loop, the refresh or the reset are written out or factored
+	// into helpers.
+	accepts := func(f *ssa.Function) bool {
 		for _, cs := range callsIn(f, false) {
 			if cs.Common.IsInvoke() && cs.Common.Method.Name() == "Accept" && isNamed(cs.Common.Value.Type(), "net", "Listener") {
-				ro.Serving = appendFn(ro.Serving, f)
+				return true
 			}
+		}
+		return false
+	}
+	var cands []*ssa.Function
+	for _, f := range p.Funcs {
+		if fnPkgPath(f) == pkgVarlink && f.Parent() == nil && len(f.Blocks) > 0 && accepts(p.Inlined(f, nil)) {
+			cands = append(cands, f)
+		}
+	}
+	for _, f := range cands {
+		helper := false
+		for _, g := range cands {
+			if g != f && ro.CG.Reach([]*ssa.Function{g}, false)[f] {
+				helper = true
+			}
+		}
+		if !helper {
+			v := p.Inlined(f, nil)
+			ro.CG.AddView(v)
+			ro.Serving = appendFn(ro.Serving, v)
+			ro.ServingOrig = appendFn(ro.ServingOrig, f)
 		}
 	}
 	for _, sv := range ro.Serving {
@@ -267,4 +295,13 @@ func hasPrefixAny(s string, ps ...string) bool {
 		}
 	}
 	return false
+}
+
+// servingSide: the serving functions (views and originals) and every function they call synchronously.
+func (ro *Roles) servingSide() map[*ssa.Function]bool {
+	out := ro.CG.Reach(ro.ServingOrig, false)
+	for _, v := range ro.Serving {
+		out[v] = true
+	}
+	return out
 }
